@@ -23,6 +23,20 @@ def exportFileHeader (fh : Nat → Nat) : Nat → Nat :=
   if supportedFormat (formatOf fh) then fh
   else fun i => if i == 3224 then 0 else if i == 3225 then 1 else fh i
 
+/-- `struct.unpack('>h', hdr[3504:3506])`: the number of extended textual headers the source's binary header announces
+(negative = "variable", taken as none) -/
+def extCount (fh : Nat → Nat) : Nat :=
+  let w := fh 3504 * 256 + fh 3505
+  if w < 32768 then w else 0
+
+/-- file offset of trace `t` of the export: after the file headers, the (blank) extended textual headers segyio is asked to
+leave room for, and `t` traces of 240 + 4·ns bytes -/
+def exportTraceOffset (fh : Nat → Nat) (ns t : Nat) : Nat := 3600 + 3200 * extCount fh + t * (240 + 4 * ns)
+
+/-- where a SEG-Y reader looks for trace `t`, from the binary header it finds in the file -/
+def segyTraceOffset (fileHeader : Nat → Nat) (ns t : Nat) : Nat :=
+  3600 + 3200 * extCount fileHeader + t * (240 + 4 * ns)
+
 /-- header `i`, field `f` of the export -/
 def exportHeader (regen : Nat → Nat → Int) (drtField : Nat) (firstSampleMs : Int) (i f : Nat) : Int :=
   if f == drtField then firstSampleMs else regen i f
